@@ -245,9 +245,9 @@ theorem runSccs_spec (dl : Deadline) (fuel : Nat) (ps' : ProgSt) : ∀ (rest don
       | outOfFuel => rw [hr] at h; cases h
 
 /-- after `updateIndices` the stored index of every relation holds exactly its row numbers
-(each once if the stored indices were empty) -/
+(each once: the indices are rebuilt, whatever they held before) -/
 theorem PInv_start (aggv : AggClause E A → List Tuple) (s : St) (hst : WFSt' p s)
-    (hinp : ∀ r, r < p.rels.length → (relSt s r).rows = inp r) (hk : K → ∀ r, (relSt s r).idx = []) :
+    (hinp : ∀ r, r < p.rels.length → (relSt s r).rows = inp r) :
     PInv I p inp aggv K p.rels.length (updateIndices s) := by
   refine ⟨by simpa [updateIndices] using hst.1, ?_, ?_, ?_⟩
   · intro r hr
@@ -256,28 +256,20 @@ theorem PInv_start (aggv : AggClause E A → List Tuple) (s : St) (hst : WFSt' p
     refine ⟨fun t ht => derA_input ⟨hr, ht⟩, [], by simp, List.nodup_nil, fun t ht => by simp at ht⟩
   · intro r i
     rw [relSt_updateIndices]
-    simp only [List.mem_append, List.mem_range]
-    constructor
-    · intro h; exact .inr h
-    · rintro (h | h)
-      · by_cases hr : r < s.length
-        · exact hst.2 _ (relSt_mem s r hr) i h
-        · rw [relSt_of_ge s r (Nat.le_of_not_lt hr)] at h; simp at h
-      · exact h
-  · intro hk' r
+    simp only [List.mem_range]
+  · intro _ r
     rw [relSt_updateIndices]
-    simp only [hk hk' r, List.nil_append]
     exact List.nodup_range
 
 include hl hh ho hs in
 /-- everything the final theorems need about a completed run (any deadline oracle) -/
 theorem run_spec (dl : Deadline) (fuel : Nat) (s : St) (ps : ProgSt) (hst : WFSt' p s)
-    (hinp : ∀ r, r < p.rels.length → (relSt s r).rows = inp r) (hk : K → ∀ r, (relSt s r).idx = [])
+    (hinp : ∀ r, r < p.rels.length → (relSt s r).rows = inp r)
     (hrun : runTimeout I cfg p o dl fuel s = .done ps) :
     PInv I p inp (aggOf cfg p ps.st) K p.rels.length ps.st ∧
       ClosedRules I (aggOf cfg p ps.st) p.rules (factsOf ps.st) := by
   have h := runSccs_spec I cfg p inp K hl hh o ho hs dl fuel ps o [] _ (by simp)
-    (PInv_start I p inp K (aggOf cfg p ps.st) s hst hinp hk) (by intro scc hscc; simp at hscc) hrun
+    (PInv_start I p inp K (aggOf cfg p ps.st) s hst hinp) (by intro scc hscc; simp at hscc) hrun
   refine ⟨h.1, ?_⟩
   intro rule hrule ρ hsat hd hhd
   obtain ⟨i, hi, hri⟩ := List.mem_iff_getElem.mp hrule
@@ -287,14 +279,14 @@ theorem run_spec (dl : Deadline) (fuel : Nat) (s : St) (ps : ProgSt) (hst : WFSt
 
 section General
 variable (dl : Deadline) (fuel : Nat) (s : St) (ps : ProgSt) (hst : WFSt' p s)
-  (hinp : ∀ r, r < p.rels.length → (relSt s r).rows = inp r) (hk : K → ∀ r, (relSt s r).idx = [])
+  (hinp : ∀ r, r < p.rels.length → (relSt s r).rows = inp r)
   (hrun : runTimeout I cfg p o dl fuel s = .done ps)
 
-include hl hh ho hs hst hinp hk hrun in
+include K hl hh ho hs hst hinp hrun in
 /-- **run = least model** where every aggregation item is evaluated on what it reads from the
 final program value -/
 theorem runFrom_eq_model : ∀ f, factsOf ps.st f ↔ DerA I p.rules (aggOf cfg p ps.st) (inDB p inp) f := by
-  obtain ⟨hp, hcl⟩ := run_spec I cfg p inp K hl hh o ho hs dl fuel s ps hst hinp hk hrun
+  obtain ⟨hp, hcl⟩ := run_spec I cfg p inp K hl hh o ho hs dl fuel s ps hst hinp hrun
   intro f
   constructor
   · intro hf
@@ -313,17 +305,17 @@ theorem runFrom_eq_model : ∀ f, factsOf ps.st f ↔ DerA I p.rules (aggOf cfg 
     · rintro f ⟨rule, hrule, ρ, hsat, h, hhd, rfl⟩
       exact hcl rule hrule ρ hsat h hhd
 
-include hl hh ho hs hst hinp hk hrun in
+include K hl hh ho hs hst hinp hrun in
 theorem runFrom_rows_set : ∀ r, r < p.rels.length → ∃ derived : List Tuple,
     (relSt ps.st r).rows = inp r ++ derived ∧ derived.Nodup ∧ ∀ t ∈ derived, t ∉ inp r := by
   intro r hr
-  exact ((run_spec I cfg p inp K hl hh o ho hs dl fuel s ps hst hinp hk hrun).1.good r hr).2
+  exact ((run_spec I cfg p inp K hl hh o ho hs dl fuel s ps hst hinp hrun).1.good r hr).2
 
-include hl hh ho hs hst hinp hk hrun in
-/-- the stored index of every relation holds exactly its row numbers, each once on a first run -/
+include hl hh ho hs hst hinp hrun in
+/-- the stored index of every relation holds exactly its row numbers, each once -/
 theorem runFrom_idx : (∀ r i, i < (relSt ps.st r).rows.length ↔ i ∈ (relSt ps.st r).idx) ∧
     (K → ∀ r, (relSt ps.st r).idx.Nodup) :=
-  let h := (run_spec I cfg p inp K hl hh o ho hs dl fuel s ps hst hinp hk hrun).1
+  let h := (run_spec I cfg p inp K hl hh o ho hs dl fuel s ps hst hinp hrun).1
   ⟨h.idxAll, h.idxNd⟩
 
 end General
